@@ -65,12 +65,16 @@ class Ctx:
         self.native_cpos = 0
         self.timeout_ms = timeout_ms
         self.degraded = []
+        self.pending = []
         if mode == 'sym':
             self.solver = z3.Solver()
             self.solver.set('timeout', timeout_ms)
 
     # -- solver plumbing
     def _check(self, *extra):
+        if self.pending:
+            self.solver.add(*self.pending)
+            self.pending = []
         t0 = time.perf_counter()
         r = self.solver.check(*extra)
         self.solver_s += time.perf_counter() - t0
@@ -80,7 +84,7 @@ class Ctx:
     def add(self, expr):
         """Add a constraint to the path condition; keep the cached model only if it
         still satisfies it."""
-        self.solver.add(expr)
+        self.pending.append(expr)
         if self.model is not None:
             try:
                 if not z3.is_true(self.model.eval(expr, model_completion=True)):
@@ -122,7 +126,7 @@ class Ctx:
             side = ent[1]
             self.pos += 1
             self.trace.append(('d', side))
-            self.solver.add(e if side else z3.Not(e))
+            self.pending.append(e if side else z3.Not(e))
             self.model = None
             self._remember(e, side)
             return side
@@ -137,7 +141,7 @@ class Ctx:
             self.inconclusive.append('decision unknown')
         self.pos += 1
         self.trace.append(('d', side))
-        self.solver.add(e if side else z3.Not(e))
+        self.pending.append(e if side else z3.Not(e))
         self._remember(e, side)
         return side
 
@@ -317,12 +321,13 @@ def Iff(a, b):
 
 
 class _SymNum:
-    __slots__ = ('e', 'tag')
+    __slots__ = ('e', 'tag', 'rng')
     is_real = False
 
-    def __init__(self, e, tag=None):
+    def __init__(self, e, tag=None, rng=None):
         self.e = e
         self.tag = tag
+        self.rng = rng  # (lo, hi) declared range of a fresh variable: constants outside it compare without the solver
 
     # construction helpers
     @staticmethod
@@ -418,10 +423,16 @@ class _SymNum:
     def __eq__(self, o):
         if o is None:
             return False
+        r = self.rng
+        if r is not None and type(o) is int and (o < r[0] or o > r[1]):
+            return False
         return self._cmp(o, lambda a, b: a == b)
 
     def __ne__(self, o):
         if o is None:
+            return True
+        r = self.rng
+        if r is not None and type(o) is int and (o < r[0] or o > r[1]):
             return True
         return self._cmp(o, lambda a, b: a != b)
 
@@ -501,15 +512,25 @@ def fresh_int(name, lo=None, hi=None):
     c = _ctx
     if c.mode == 'native':
         return int(c.native_model[name])
-    v = z3.Int(name)
+    ck = (name, lo, hi)
+    hit = _FRESH_CACHE.get(ck)
+    if hit is None:
+        v = z3.Int(name)
+        cons = []
+        if lo is not None:
+            cons.append(v >= lo)
+        if hi is not None:
+            cons.append(v <= hi)
+        hit = _FRESH_CACHE[ck] = (v, z3.And(*cons) if len(cons) > 1 else (cons[0] if cons else None))
+    v, con = hit
     c.inputs[name] = v
-    c.keep.append(v)
     c.ranges[v.get_id()] = (lo, hi)
-    if lo is not None:
-        c.add(v >= lo)
-    if hi is not None:
-        c.add(v <= hi)
-    return SymInt(v, tag=name)
+    if con is not None:
+        c.add(con)
+    return SymInt(v, tag=name, rng=(lo, hi) if lo is not None and hi is not None else None)
+
+
+_FRESH_CACHE = {}
 
 
 def const_int(value):
